@@ -253,4 +253,15 @@ def expectedBody (fits : List (List Message)) : Option (List Message) :=
       | _, _ => none
   go [] ins
 
+/-- class of finding KF-C20-3: an accumulable quantity (message number, field number) has its first valid value in a
+file other than the first one (creation-time order). `accumulator.Accumulate` then stores that first value as the
+"value of the previous sequences", and every later value of the same file gets it added. -/
+def freshKeyLater (fits : List (List Message)) : Bool :=
+  let rec go : List (List Message) → List (List Message) → Bool
+    | _, [] => false
+    | earlier, file :: rest =>
+      (!earlier.isEmpty && file.any fun m => m.fields.any fun f =>
+        accumulable f && earlier.all fun e => (lastIn m.num (fieldNumOf f) e).isNone) || go (earlier ++ [file]) rest
+  go [] (bodyInputs fits)
+
 end Fit.Activity
